@@ -127,7 +127,7 @@ func (ex *Exec) VerifyFunction(fn *ssa.Function, key string, ct *Contract) (res 
 	res = &FuncResult{Key: key, Pos: ex.posString(fn.Pos())}
 	run := &funcRun{key: key, fn: fn, contract: ct, inlined: map[string]bool{}, libCalls: map[string]bool{},
 		unmodelled: map[string]bool{}, contractsUsed: map[string]bool{}, trustedUsed: map[string]bool{},
-		siteIDs: map[*ssa.Function]map[ssa.Instruction]int{}, ensuresAnteReached: map[string]bool{}}
+		siteIDs: map[*ssa.Function]map[ssa.Instruction]int{}, ensuresAnteReached: map[string]bool{}, allocObjs: map[string]*Object{}, strLens: map[Key]int64{}}
 	ex.cur = run
 	defer func() {
 		if r := recover(); r != nil {
@@ -170,6 +170,10 @@ func (ex *Exec) VerifyFunction(fn *ssa.Function, key string, ct *Contract) (res 
 		}
 		fr.regs[fv] = v
 		st.paramVals[fv.Name()] = v
+		if p, ok := v.(*VPtr); ok && p.Obj != nil {
+			// in contracts a captured variable denotes its content
+			st.paramVals[fv.Name()] = st.mem[p.Obj]
+		}
 		_ = i
 	}
 	st.frames = []*Frame{fr}
@@ -185,25 +189,62 @@ func (ex *Exec) VerifyFunction(fn *ssa.Function, key string, ct *Contract) (res 
 	st.entry = entry
 
 	work := []*State{st}
-	for len(work) > 0 {
+	pools := map[string][]*State{}
+	for len(work) > 0 || len(pools) > 0 {
+		if len(work) == 0 {
+			// release the pool whose states have made the least progress
+			bestKey := ""
+			best := -1
+			for k, ss := range pools {
+				min := ss[0].steps
+				for _, s := range ss {
+					if s.steps < min {
+						min = s.steps
+					}
+				}
+				if best < 0 || min < best || (min == best && k < bestKey) {
+					best, bestKey = min, k
+				}
+			}
+			merged := ex.mergeStates(pools[bestKey])
+			run.merges += len(pools[bestKey]) - len(merged)
+			delete(pools, bestKey)
+			work = append(work, merged...)
+			continue
+		}
 		s := work[len(work)-1]
 		work = work[:len(work)-1]
 		run.paths++
 		if run.paths > ex.MaxPaths {
 			ex.unsupported("more than %d paths", ex.MaxPaths)
 		}
-		work = append(work, ex.runPath(s)...)
+		succ, parked := ex.runPath(s)
+		if parked {
+			run.paths--
+			k := s.joinKey()
+			pools[k] = append(pools[k], s)
+			continue
+		}
+		work = append(work, succ...)
 	}
 	return res
 }
 
 // runPath executes until the path ends or splits; returns successor states.
-func (ex *Exec) runPath(st *State) (succ []*State) {
+func (ex *Exec) runPath(st *State) (succ []*State, parked bool) {
 	defer func() {
 		if r := recover(); r != nil {
+			if _, ok := r.(parkRequest); ok {
+				parked = true
+				return
+			}
 			if sr, ok := r.(splitRequest); ok {
 				succ = sr.states
 				ex.cur.paths-- // a split is not a new path by itself
+				return
+			}
+			if _, ok := r.(pathEnd); ok {
+				succ = nil
 				return
 			}
 			panic(r)
@@ -215,8 +256,9 @@ func (ex *Exec) runPath(st *State) (succ []*State) {
 		if steps > 2000000 {
 			ex.unsupported("step limit exceeded")
 		}
+		st.steps++
 		if !ex.step(st) {
-			return nil
+			return nil, false
 		}
 	}
 }
@@ -254,8 +296,29 @@ func (ex *Exec) checkEnsures(st *State, in *ssa.Return) {
 // modular calls
 
 func (ex *Exec) callWithContract(st *State, instr ssa.Instruction, callee *ssa.Function, ct *Contract, args []Value) Value {
+	return ex.callWithContractEnv(st, instr, callee, ct, args, nil)
+}
+
+// callWithContractEnv: closures under contract: captured variables are visible in the contract
+// by name and denote the current content of the captured cell.
+func (ex *Exec) callWithContractEnv(st *State, instr ssa.Instruction, callee *ssa.Function, ct *Contract, args []Value, closureEnv []Value) Value {
 	names := ex.paramNames(callee, ct)
-	env := &Env{vars: map[string]Value{}, defs: ct.Defines}
+	all := append([]Value(nil), args...)
+	for i, fv := range callee.FreeVars {
+		if i < len(closureEnv) {
+			names = append(names, fv.Name())
+			if p, ok := closureEnv[i].(*VPtr); ok && p.Obj != nil {
+				all = append(all, ex.specLoad(st, p))
+			} else {
+				all = append(all, closureEnv[i])
+			}
+		}
+	}
+	return ex.applyContract(st, instr, names, ex.resultNames(callee, ct), callee.Signature, ct, all)
+}
+
+func (ex *Exec) applyContract(st *State, instr ssa.Instruction, names []string, resNames []string, sig *types.Signature, ct *Contract, args []Value) Value {
+	env := &Env{vars: map[string]Value{}, defs: ct.Defines, pkg: ct.Pkg}
 	for i, n := range names {
 		if i < len(args) {
 			env.vars[n] = args[i]
@@ -279,12 +342,16 @@ func (ex *Exec) callWithContract(st *State, instr ssa.Instruction, callee *ssa.F
 	allocBefore := st.alloc
 	// frame: havoc what the callee may modify
 	for _, m := range ct.Modifies {
+		if qn, ok := QualifiedName(m.E); ok {
+			if g, isGhost := st.ghost[qn]; isGhost {
+				st.ghost[qn] = ex.fresh(qn, g.(*Term).Sort)
+				continue
+			}
+		}
 		v := ex.evalIn(st, m.E, env, m)
 		ex.havocModified(st, v, instr)
 	}
 	// results
-	resNames := ex.resultNames(callee, ct)
-	sig := callee.Signature
 	var results []Value
 	base := ex.fresh("ret."+shortName(ct.Func), SInt).Name
 	na := ex.fresh("alloc", SInt)
@@ -303,6 +370,9 @@ func (ex *Exec) callWithContract(st *State, instr ssa.Instruction, callee *ssa.F
 		env.vars[resNames[i]] = v
 	}
 	env.freshBase = allocBefore
+	for _, r := range results {
+		ex.nameResultRows(st, r)
+	}
 	for _, en := range ct.Ensures {
 		st.assume(ex.evalBool(st, en.E, env, en))
 	}
@@ -426,6 +496,26 @@ func (ex *Exec) callInterfaceMethod(st *State, instr ssa.Instruction, c *ssa.Cal
 	if h, ok := ifaceMethodModels[key]; ok {
 		return h(ex, st, instr, recv, args)
 	}
+	if ct, ok := ex.Contracts[key]; ok {
+		ex.cur.contractsUsed[key] = true
+		ex.cur.trustedUsed[key+" (interface contract; implementations verified separately or assumed)"] = true
+		res := sig.Results()
+		resNames := make([]string, res.Len())
+		for i := range resNames {
+			resNames[i] = fmt.Sprintf("result%d", i)
+			if i < len(ct.Results) {
+				resNames[i] = ct.Results[i]
+			}
+		}
+		names := make([]string, sig.Params().Len())
+		for i := range names {
+			names[i] = sig.Params().At(i).Name()
+			if i < len(ct.Params) {
+				names[i] = ct.Params[i]
+			}
+		}
+		return ex.applyContract(st, instr, names, resNames, sig, ct, args)
+	}
 	if c.Method.Name() == "Error" && types.Identical(c.Value.Type().Underlying(), types.Universe.Lookup("error").Type().Underlying()) {
 		return ex.fresh("errstr", SStr)
 	}
@@ -450,9 +540,52 @@ var symFuncModels = map[string]func(ex *Exec, st *State, instr ssa.Instruction, 
 
 // setupGhost initialises ghost state for a function run.
 func (ex *Exec) setupGhost(st *State) {
+	for _, n := range ex.Spec.GhostOrder {
+		st.ghost[n] = Var(n+"@0", ex.Spec.Ghosts[n])
+	}
 	for _, h := range ghostInit {
 		h(ex, st)
 	}
 }
 
 var ghostInit []func(ex *Exec, st *State)
+
+// nameResultRows: the heap rows of slices returned by a contract call get a name
+// (row == select(H, ref) is assumed once), which keeps later reads small.
+func (ex *Exec) nameResultRows(st *State, v Value) {
+	switch x := v.(type) {
+	case *VSlice:
+		leaves, err := ex.flattenType(x.Elem)
+		if err != nil {
+			return
+		}
+		for _, lf := range leaves {
+			key := heapKey(x.Elem, lf)
+			h := st.heap(key, HeapOf(lf.Sort))
+			if h.Op == "var" {
+				continue
+			}
+			row := ex.fresh("row", ArrayOf(lf.Sort))
+			st.assume(Eq(row, Select(h, x.Ref)))
+			st.heaps[key] = Store(h, x.Ref, row)
+		}
+	case *VStruct:
+		for _, f := range x.Fields {
+			ex.nameResultRows(st, f)
+		}
+	case *VTuple:
+		for _, f := range x.Vals {
+			ex.nameResultRows(st, f)
+		}
+	case *VIface:
+		for _, a := range x.Alts {
+			ex.nameResultRows(st, a.Val)
+		}
+	case *VPtr:
+		if x.Obj != nil {
+			if cur, ok := st.mem[x.Obj]; ok {
+				ex.nameResultRows(st, ex.loadPath(cur, x.Path))
+			}
+		}
+	}
+}
